@@ -42,6 +42,11 @@ type (
 		// token was imported (newline-separated, so that Token stays
 		// comparable); used to detect import cycles.
 		imports string
+
+		// envBreaks is the number of line breaks that the replacement of
+		// environment references added to Text; they are not in the file
+		// and must not count when tokens are assigned to lines.
+		envBreaks int
 	}
 )
 
@@ -184,5 +189,5 @@ func isNextOnNewLine(t1, t2 Token) bool {
 	// If the first token (incl line breaks) ends
 	// on a line earlier than the next token,
 	// then the second token is on a new line
-	return t1.Line+t1.NumLineBreaks() < t2.Line
+	return t1.Line+t1.NumLineBreaks()-t1.envBreaks < t2.Line
 }
